@@ -3,6 +3,7 @@
 from ..r_rdkit import rule_bond_books, rule_sign_conventions, rule_attribute_coverage
 from ..r_stereo import rule_tetrahedron_table, rule_alkene_table, rule_ladders
 from ..r_hygiene import rule_hygiene as _rule_hygiene
+from ..r_rdkit import rule_index_inverse as _rule_index_inverse
 from ..r_rdkit import rule_import_revalidates as _rule_import_reval
 
 LEVEL = 'other'
@@ -17,4 +18,5 @@ def run(ck, repo):
     t = rule_alkene_table(ck, repo)
     rule_ladders(ck, repo, t)
     _rule_hygiene(ck, repo, 'C20.H-dataflow-hygiene', 'C20')
+    _rule_index_inverse(ck, repo, 'C20.D5-index-inverse')
     _rule_import_reval(ck, repo, 'C20.D4-import-revalidates')
